@@ -100,7 +100,7 @@ Definition model_stack (c : case) (s : slist) : sobs :=
   end.
 
 Definition meta_of (c : case) (i : nat) : meta :=
-  match nth i (c_files c) (Fault ECrash) with Data _ _ m => m | Fault _ => fun _ => GNone end.
+  match nth i (c_files c) (Fault ECrash) with Data _ _ m => m | Fault _ | ExtractFault _ _ => fun _ => GNone end.
 
 Definition key_ok (c : case) (g : list gval * list nat) : bool :=
   Nat.eqb (length (fst g)) (length (c_group_by c)) &&
